@@ -38,7 +38,37 @@ def _slug(s):
     return re.sub(r"[^A-Za-z0-9_.-]+", "_", s)[:120]
 
 
+_BIG = None
+
+
+def _big_frame():
+    """CPython >= 3.11 keeps interpreter frames in 16 KiB "data stack" chunks
+    that are mmap'ed / munmap'ed whenever the call depth crosses a chunk
+    boundary.  pyvc's recursive AST interpreter crosses boundaries constantly,
+    and at unlucky base depths (such as that of a multiprocessing worker) this
+    made a run 5-10x slower, all of it system time.  A function with > 2^18
+    local variables needs a 4 MiB chunk of its own; everything called from
+    inside it lives in the ~2 MiB that remain free in that chunk, so the hot
+    recursion never touches a chunk boundary.  (Measured: per-path time becomes
+    independent of the base depth.)"""
+    global _BIG
+    if _BIG is None:
+        n = 262144 + 256
+        lines = ["def _big(f):"]
+        for i in range(0, n, 1000):
+            lines.append("    " + "=".join(f"v{j}" for j in range(i, min(n, i + 1000))) + "=None")
+        lines.append("    return f()")
+        ns = {}
+        exec(compile("\n".join(lines) + "\n", "<pyvc-bigframe>", "exec"), ns)
+        _BIG = ns["_big"]
+    return _BIG
+
+
 def _worker(job):
+    return _big_frame()(lambda: _worker_body(job))
+
+
+def _worker_body(job):
     cid, module, tmo, prefixes, expand = job
     try:
         sys.path.insert(0, VERIF)
@@ -133,19 +163,22 @@ def run_property(args):
     results = {}
     crashes = []
     ctxm = mp.get_context("fork")
+    _big_frame()            # compile once, the workers inherit it
     with ctxm.Pool(args.jobs) as pool:
         # phase 1: the first two levels of every path tree (cheap), so that
         # phase 2 can spread sub-trees of big functions over all cores
         frontier = {cid: [()] for cid in cids}
         for _round in range(3):
-            jobs = [(cid, mod_of[cid], tmo, ps, False) for cid, ps in frontier.items() if ps]
+            # spread wide frontiers (many shapes) over the pool as well
+            jobs = [(cid, mod_of[cid], tmo, ps[i:i + 4], False) for cid, ps in frontier.items() if ps
+                    for i in range(0, len(ps), 4)]
             frontier = {}
             for cid, r, err in pool.imap_unordered(_worker, jobs):
                 if err:
                     crashes.append((cid, err))
                     continue
                 results[cid] = merge_results(results[cid], r) if cid in results else r
-                frontier[cid] = list(r.pending)
+                frontier.setdefault(cid, []).extend(r.pending)
         jobs = []
         for cid, ps in frontier.items():
             for p in ps:
